@@ -317,6 +317,9 @@ def r4_who_releases(ctx):
         "runtime::Value::return_to_pool": {"runtime::Runtime::pop_scope", "runtime::Runtime::overwrite_slot", "runtime::Runtime::assign_index"},
         P + "Pool::alloc": {P + "PoolSet::alloc"},
         P + "PoolSet::alloc": {P + "PoolSet::alloc_str"},
+        # ... and pooled strings are made in two places: when a value is promoted into a variable / element, and when a
+        # string argument is bound to a parameter.  Both store the result in a slot table that returns it (R2).
+        P + "PoolSet::alloc_str": {"arena::cow::ArenaCow::promote", "runtime::Runtime::eval_function_call"},
     }
     for callee, who in chain.items():
         cs = ctx.lib.callers_of(callee)
@@ -358,7 +361,61 @@ def r5_slots_are_not_aliased_across_calls(ctx):
     param_binding_rule(ctx)
 
 
-RULES = [("C12-R1", r1_class_table), ("C12-R1b", r1b_backing_sizes), ("C12-R2", r2_conservation), ("C12-R3", r3_class_checked_release), ("C12-R4", r4_who_releases), ("C12-R5", r5_slots_are_not_aliased_across_calls)]
+def r6_borrowers_are_cut_before_a_slot_goes_back(ctx):
+    """`Exclusively owned until it is returned` seen from the pool's only client: a slot is returned when its variable is
+    overwritten or its scope ends, so every value that leaves a variable's scope or is stored must have been cut loose from the
+    slot first - promote / detach copy *every* string that borrows a pool slot (all sizes up to the largest class, strings
+    nested in arrays at any depth), and no frame reset comes between a value and its copy.  Shared with C02-R4 / C02-R5."""
+    from .c02 import r4_resets, r5_promotion_complete
+    r4_resets(ctx)
+    r5_promotion_complete(ctx)
+
+
+def r7_fallback_memory_is_never_recycled(ctx):
+    """A request the pool cannot serve from a slot falls back to fresh memory of the persistent arena, which is never taken
+    back.  The one place where the runtime rewinds the persistent arena (a mark taken with offset(), work, reset(mark)) must
+    therefore not allocate from the pool in between: a fallback block made there lies above the mark and the reset hands it out
+    again while its string is live."""
+    cg = ctx.lib.callgraph()
+    reach_alloc = set()
+    radj = {}
+    for src, d in cg.items():
+        for cal in d:
+            radj.setdefault(parent_fn(cal), set()).add(parent_fn(src))
+    st = [P + "PoolSet::alloc"]
+    while st:
+        x = st.pop()
+        if x in reach_alloc:
+            continue
+        reach_alloc.add(x)
+        st.extend(radj.get(x, ()))
+    n = 0
+    for fn in ctx.lib.fns.values():
+        if fn.file != "src/runtime.rs":
+            continue
+        resets = [c for c in fn.calls() if (c.callee or "").endswith("Arena::reset")]
+        marks = [c for c in fn.calls() if (c.callee or "").endswith("Arena::offset")]
+        for r in resets:
+            arena = sh(ne(fn.deep(r.args[0], 6))).replace(" ", "")
+            if arena not in ("self.arena", "arena(self.pool)", "self.pool.arena"):
+                continue        # the frame arena: the pool never allocates there
+            mk = [m for m in marks if sh(ne(fn.deep(m.args[0], 6))).replace(" ", "") == arena and fn.dominates(m.block, r.block)]
+            n += 1
+            ctx.touch(fn)
+            key = "persistent-rewind|%s" % parent_fn(fn.id).split("::")[-1]
+            if not mk:
+                ctx.bad(key + "|no-mark", fn.where(r.block), "the persistent arena is reset to a value that is not a mark taken in this function")
+                continue
+            between = set(fn.reach_from_succ(mk[-1].block)) & {b for b in fn.live if r.block in fn.reach([b])}
+            offenders = [c for c in fn.calls() if c.block in between and c.block != r.block and c.callee and parent_fn(c.callee) in reach_alloc]
+            if offenders:
+                ctx.bad(key + "|pool-allocation|%s" % parent_fn(offenders[0].callee).split("::")[-1], fn.where(offenders[0].block), "%s calls %s between taking a mark on the persistent arena and resetting to it: when the pool falls back to arena memory (a string longer than the largest slot, or an exhausted class) the block lies above the mark and is recycled by the reset while still in use" % (parent_fn(fn.id).split("::")[-1], parent_fn(offenders[0].callee).split("::")[-1]))
+            else:
+                ctx.ok(key, fn.where(r.block), "no pool allocation between the mark and the reset")
+    ctx.floor("rewinds of the persistent arena in the runtime", n, 1)
+
+
+RULES = [("C12-R1", r1_class_table), ("C12-R1b", r1b_backing_sizes), ("C12-R2", r2_conservation), ("C12-R3", r3_class_checked_release), ("C12-R4", r4_who_releases), ("C12-R5", r5_slots_are_not_aliased_across_calls), ("C12-R6", r6_borrowers_are_cut_before_a_slot_goes_back), ("C12-R7", r7_fallback_memory_is_never_recycled)]
 
 EXPLANATION = (
     "R1: the evaluated class table (SLOT_SIZES, SLOT_COUNTS, CLASS_COUNT) is checked for shape and every integer constant of "
@@ -381,3 +438,6 @@ EXPLANATION += (
 ASSUMPTIONS = ["strings stored in slots are never grown in place (capacity stays equal to the allocated length)"]
 TRUSTED = ["rustc const-eval of the tables", "nsx exporter", "nsverif path enumeration"]
 NONTRIVIAL = "one obligation per constant, per enumerated path, per release-chain edge; distinct = distinct constant/path/edge"
+EXPLANATION += (
+    ' Round-5: R4 also restricts who calls PoolSet::alloc_str (promotion and parameter binding). R6 shares C02-R4/R5 (a slot goes back only after every borrower was cut loose: promote/detach copy every pool-borrowed string, at every size up to the largest class and at every array depth). R7: between taking a mark on the persistent arena and resetting to it, nothing that can reach PoolSet::alloc is called - a fallback block made there would be recycled while live.'
+)
